@@ -693,11 +693,13 @@ impl<T> LockFreeStack<T> {
         }));
 
         loop {
+            verif_point!("sp.push.load", new_node);
             let head = self.head.load(Ordering::Acquire);
             unsafe {
                 (*new_node).next = head;
             }
 
+            verif_point!("sp.push.cas", new_node, head);
             if self
                 .head
                 .compare_exchange_weak(head, new_node, Ordering::Release, Ordering::Relaxed)
@@ -710,12 +712,15 @@ impl<T> LockFreeStack<T> {
 
     fn pop(&self) -> Option<T> {
         loop {
+            verif_point!("sp.pop.load");
             let head = self.head.load(Ordering::Acquire);
             if head.is_null() {
                 return None;
             }
 
+            verif_point!("sp.pop.deref", head);
             let next = unsafe { (*head).next };
+            verif_point!("sp.pop.cas", head, next);
             if self
                 .head
                 .compare_exchange_weak(head, next, Ordering::Release, Ordering::Relaxed)
